@@ -66,6 +66,8 @@ Lemma lsum_ext f f' l : (forall p, f p = f' p) -> lsum f l = lsum f' l.
 Proof. intro H; induction l; simpl; [reflexivity|]. rewrite (psum_ext f f'), IHl; auto. Qed.
 
 Definition fsum {A} (h : A -> Z) (l : list A) : Z := fold_right (fun x s => h x + s) 0 l.
+Lemma fsum_cons {A} (h : A -> Z) x l : fsum h (x :: l) = h x + fsum h l.
+Proof. reflexivity. Qed.
 Lemma fsum_perm {A} (h : A -> Z) l l' : Permutation l l' -> fsum h l = fsum h l'.
 Proof. induction 1; simpl; lia. Qed.
 Lemma fsum_ext {A} (h h' : A -> Z) l : (forall x, h x = h' x) -> fsum h l = fsum h' l.
@@ -177,16 +179,16 @@ Lemma entry_from_balance_sum g date src dir flag ai :
   lsum (measure g) (entry_from_balance date src dir flag ai)
   = sgn dir * (inv_wsum (g (fst ai)) (snd ai) - inv_wsum (g_src g src (fst ai)) (snd ai)).
 Proof.
-  destruct ai as [a i]. unfold entry_from_balance; simpl.
-  destruct i as [|kn r]; simpl; [unfold inv_wsum; simpl; lia|].
-  rewrite psum_app, pos_postings_sum, psum_flat_map.
-  rewrite (fsum_ext _ (fun kn => sgn dir * (g a (fst kn) * snd kn - g_src g src a (fst kn) * snd kn)))
-    by (intro; apply pos_postings_sum).
-  unfold inv_wsum; simpl.
+  destruct ai as [a i]. unfold entry_from_balance. cbn [fst snd].
   assert (forall l, fsum (fun kn : key * Z => sgn dir * (g a (fst kn) * snd kn - g_src g src a (fst kn) * snd kn)) l
-                    = sgn dir * (fsum (fun kn => g a (fst kn) * snd kn) l - fsum (fun kn => g_src g src a (fst kn) * snd kn) l)) as H.
-  { induction l; simpl; [lia|]. rewrite IHl. ring. }
-  rewrite H. ring.
+                    = sgn dir * (inv_wsum (g a) l - inv_wsum (g_src g src a) l)) as H.
+  { unfold inv_wsum. induction l as [|x l IHl]; [simpl; lia|]. rewrite !fsum_cons, IHl. ring. }
+  destruct (inv_is_empty i) eqn:E.
+  - destruct i; [|discriminate]. rewrite lsum_nil, !inv_wsum_nil. lia.
+  - rewrite lsum_cons, lsum_nil. cbn [t_posts]. rewrite psum_flat_map.
+    rewrite (fsum_ext _ (fun kn => sgn dir * (g a (fst kn) * snd kn - g_src g src a (fst kn) * snd kn)))
+      by (intro; apply pos_postings_sum).
+    rewrite H. lia.
 Qed.
 
 Lemma entries_from_balances_sum g b date src dir flag :
@@ -213,9 +215,13 @@ Qed.
 (* every generated entry balances (weights) *)
 Lemma pos_postings_wsum c a src dir kn : wsum c (pos_postings a src dir kn) = 0.
 Proof.
-  destruct kn as [[cu o] n]. unfold wsum, pos_postings, weight, key_cost_mult, key_cost_cur; simpl.
-  destruct o as [co|]; simpl; destruct (_ =? c); lia.
+  destruct kn as [[cu o] n]. unfold wsum, pos_postings, weight, key_cost_mult, key_cost_cur.
+  destruct o as [co|]; destruct dir; cbn [psum fold_right p_cost p_price p_units p_cur fst snd];
+    destruct (_ =? c); lia.
 Qed.
+Lemma wsum_cons c p ps :
+  wsum c (p :: ps) = (if snd (weight p) =? c then fst (weight p) else 0) + wsum c ps.
+Proof. reflexivity. Qed.
 Lemma wsum_app c a b : wsum c (a ++ b) = wsum c a + wsum c b.
 Proof. unfold wsum. apply psum_app. Qed.
 Lemma entries_from_balances_balanced b date src dir flag :
@@ -223,8 +229,8 @@ Lemma entries_from_balances_balanced b date src dir flag :
 Proof.
   apply Forall_flat_map. intros [a i] _. unfold entry_from_balance.
   destruct (inv_is_empty (snd (a, i))); repeat constructor.
-  intro c. simpl. induction i as [|kn r IH]; simpl; [reflexivity|].
-  rewrite wsum_app, pos_postings_wsum, IH. reflexivity.
+  intro c. cbn [t_posts fst snd]. induction i as [|kn r IH]; [reflexivity|].
+  cbn [flat_map]. rewrite wsum_app, pos_postings_wsum, IH. reflexivity.
 Qed.
 
 (* ------------------------------------------------------------------ *)
@@ -363,9 +369,10 @@ Proof.
   assert (inv_wsum (fun k => g acct (fst k, None)) (inv_reduce_cost (entries_balance before))
           = lsum (fun p => g acct (key_cost_cur (p_key p), None) * key_cost_mult (p_key p) * p_units p) before) as Hs.
   { rewrite inv_reduce_cost_sum, entries_balance_sum. reflexivity. }
-  destruct (inv_reduce_cost (entries_balance before)) as [|kn r] eqn:E.
-  - simpl. rewrite <- Hs. reflexivity.
-  - simpl inv_is_empty. cbv iota. rewrite lsum_cons, lsum_nil. unfold conversion_entry; simpl t_posts.
+  cbv zeta. remember (inv_reduce_cost (entries_balance before)) as cb.
+  destruct (inv_is_empty cb) eqn:E.
+  - destruct cb; [|discriminate]. rewrite <- Hs, lsum_nil, inv_wsum_nil. reflexivity.
+  - rewrite lsum_cons, lsum_nil. unfold conversion_entry; cbn [t_posts].
     rewrite Hc, Hs. lia.
 Qed.
 
@@ -388,7 +395,6 @@ Proof. intro H. apply lsum_zero. intros. unfold measure. rewrite H. lia. Qed.
 
 (* (i) measures that ignore the income-statement accounts and the account [acct]
        receiving the counter-postings *)
-Hypothesis opts_not_is : True.
 
 Lemma conv_entries_sum_0 before acct ccur ldate :
   (forall k, g acct k = 0) -> M (conv_entries before acct ccur ldate) = 0.
@@ -418,3 +424,462 @@ Proof.
 Qed.
 
 End Measures.
+
+(* (iii) the value at cost of ALL accounts in one currency *)
+Definition all_accounts : account -> bool := fun _ => true.
+
+Lemma bal_wsum_ext g g' b : (forall a k, g a k = g' a k) -> bal_wsum g b = bal_wsum g' b.
+Proof.
+  intro H. unfold bal_wsum. apply fsum_ext. intros [a i]. unfold inv_wsum. apply fsum_ext.
+  intros [k n]. simpl. rewrite H. reflexivity.
+Qed.
+
+Lemma g_cost_all_src c src a k : g_src (g_cost all_accounts c) src a k = g_cost all_accounts c a k.
+Proof.
+  unfold g_src, g_cost, all_accounts, key_cost_cur, key_cost_mult. simpl.
+  destruct (_ =? c); lia.
+Qed.
+
+Lemma entries_from_balances_cost_zero c b date src dir flag :
+  cost_total all_accounts c (entries_from_balances b date src dir flag) = 0.
+Proof.
+  unfold cost_total. rewrite entries_from_balances_sum.
+  rewrite (bal_wsum_ext (g_src _ src) (g_cost all_accounts c)) by (intros; apply g_cost_all_src). lia.
+Qed.
+
+Lemma conv_entries_cost c before acct ccur ldate :
+  cost_total all_accounts c (conv_entries before acct ccur ldate) = - cost_total all_accounts c before.
+Proof.
+  unfold cost_total. rewrite conv_entries_sum. f_equal. apply lsum_ext. intro p.
+  unfold measure, g_cost, all_accounts, key_cost_cur at 1, key_cost_mult at 1. simpl.
+  destruct (_ =? c); lia.
+Qed.
+
+(* ------------------------------------------------------------------ *)
+(* sorted ledgers: the scans are filters *)
+
+Definition date_le (a b : txn) : bool := t_date a <=? t_date b.
+Definition sorted_dates (l : list txn) : Prop := sorted date_le l.
+
+Lemma filter_none {A} (f : A -> bool) l : Forall (fun x => f x = false) l -> filter f l = [].
+Proof. induction 1; simpl; [reflexivity|]. rewrite H. exact IHForall. Qed.
+Lemma filter_all {A} (f : A -> bool) l : Forall (fun x => f x = true) l -> filter f l = l.
+Proof. induction 1; simpl; [reflexivity|]. rewrite H, IHForall. reflexivity. Qed.
+Lemma filter_ext' {A} (f f' : A -> bool) l : (forall x, f x = f' x) -> filter f l = filter f' l.
+Proof. intro H. induction l; simpl; [reflexivity|]. rewrite H, IHl. reflexivity. Qed.
+
+Lemma take_before_filter d l : sorted_dates l -> take_before d l = filter (fun t => t_date t <? d) l.
+Proof.
+  induction 1 as [|a r Hs IH Ha]; simpl; [reflexivity|].
+  destruct (Z.ltb_spec (t_date a) d); [rewrite IH; reflexivity|].
+  symmetry. apply filter_none. eapply Forall_impl; [|exact Ha]. unfold date_le. simpl. intros x Hx.
+  apply Z.leb_le in Hx. apply Z.ltb_ge. lia.
+Qed.
+Lemma drop_before_filter d l : sorted_dates l -> drop_before d l = filter (fun t => d <=? t_date t) l.
+Proof.
+  induction 1 as [|a r Hs IH Ha]; simpl; [reflexivity|].
+  destruct (Z.ltb_spec (t_date a) d) as [H|H].
+  - destruct (Z.leb_spec d (t_date a)); [lia|]. exact IH.
+  - destruct (Z.leb_spec d (t_date a)); [|lia]. f_equal. symmetry. apply filter_all.
+    eapply Forall_impl; [|exact Ha]. unfold date_le. simpl. intros x Hx.
+    apply Z.leb_le in Hx. apply Z.leb_le. lia.
+Qed.
+Lemma sorted_dates_filter f l : sorted_dates l -> sorted_dates (filter f l).
+Proof. apply sorted_filter. Qed.
+
+(* ------------------------------------------------------------------ *)
+(* the prepared ledger, all clause subsets *)
+
+Definition take_hi (hi : option Z) (l : list txn) := match hi with Some e => take_before e l | None => l end.
+Definition drop_lo (lo : option Z) (l : list txn) := match lo with Some d => drop_before d l | None => l end.
+Definition take_lo (lo : option Z) (l : list txn) := match lo with Some d => take_before d l | None => [] end.
+
+Section Prepared.
+Variable o : opts.
+(* the five accounts of the options are not Income / Expenses accounts
+   (they are Equity accounts; see opts_equity) *)
+Hypothesis H_earn_prev : is_income_statement (o_earn_prev o) = false.
+Hypothesis H_opening : is_income_statement (o_opening o) = false.
+Hypothesis H_conv_prev : is_income_statement (o_conv_prev o) = false.
+Hypothesis H_earn_cur : is_income_statement (o_earn_cur o) = false.
+Hypothesis H_conv_cur : is_income_statement (o_conv_cur o) = false.
+
+Definition part_open (op : option Z) (l : list txn) : list txn :=
+  match op with Some d => open_summary o d (take_before d l) | None => [] end.
+Definition part_window (op : option Z) (cl : option close_spec) (l : list txn) : list txn :=
+  take_hi (close_date cl) (drop_lo op l).
+Definition part_close (op : option Z) (cl : option close_spec) (l : list txn) : list txn :=
+  let x := part_open op l ++ part_window op cl l in
+  match cl with
+  | Some (CloseOn e) => conv_entries x (o_conv_cur o) (o_conv_currency o) (e - 1)
+  | Some CloseAll => conv_entries x (o_conv_cur o) (o_conv_currency o) (last_date x)
+  | None => []
+  end.
+Definition part_clear (op : option Z) (cl : option close_spec) (clr : bool) (l : list txn) : list txn :=
+  let x := part_open op l ++ part_window op cl l ++ part_close op cl l in
+  if clr then transfer_entries x (o_earn_cur o) (last_date x) else [].
+
+Lemma open_summary_shape d before :
+  Forall (fun t => t_flag t = FLAG_SUMMARIZE /\ t_date t = d - 1) (open_summary o d before).
+Proof. apply entries_from_balances_shape. Qed.
+
+Theorem prepare_decomp op cl clr l : check_dates op cl = FromOk ->
+  prepare_c o op cl clr l
+  = part_open op l ++ part_window op cl l ++ part_close op cl l ++ part_clear op cl clr l.
+Proof.
+  intro Hc. unfold prepare_c, prepare, part_clear, part_close, part_window, part_open.
+  assert (Hstage2 :
+    stage_close (list txn) (close_c o) cl (stage_open (list txn) (open_c o) op l)
+    = part_open op l ++ part_window op cl l ++ part_close op cl l).
+  { unfold part_close, part_window, part_open.
+    destruct op as [d|], cl as [[e|]|]; simpl.
+    - simpl in Hc. destruct (Z.ltb_spec e d); [discriminate|].
+      rewrite close_c_some, open_c_eq.
+      rewrite take_app; [rewrite <- app_assoc; reflexivity|].
+      eapply Forall_impl; [|apply open_summary_shape]. intros t [_ Ht]. simpl in Ht. lia.
+    - rewrite close_c_none, open_c_eq, <- app_assoc. reflexivity.
+    - rewrite open_c_eq, app_nil_r. reflexivity.
+    - rewrite close_c_some. reflexivity.
+    - rewrite close_c_none. reflexivity.
+    - rewrite app_nil_r. reflexivity. }
+  unfold part_close, part_window, part_open in Hstage2.
+  destruct clr; simpl stage_clear.
+  - rewrite clear_c_eq, Hstage2. rewrite <- !app_assoc. reflexivity.
+  - rewrite Hstage2, !app_nil_r. reflexivity.
+Qed.
+
+(* the window taken from the original ledger joins the entries before OPEN into the
+   entries before CLOSE *)
+Lemma lo_window_hi op cl l : check_dates op cl = FromOk ->
+  take_lo op l ++ part_window op cl l = take_hi (close_date cl) l.
+Proof.
+  intro Hc. unfold part_window. destruct op as [d|], cl as [[e|]|]; simpl; try apply take_drop; try reflexivity.
+  simpl in Hc. destruct (Z.ltb_spec e d); [discriminate|].
+  rewrite <- (take_drop d l) at 3. symmetry. apply take_take_le. lia.
+Qed.
+
+Section M.
+Variable g : account -> key -> Z.
+Notation M := (lsum (measure g)).
+
+Lemma g_src_zero src l : (forall k, g src k = 0) -> lsum (measure (g_src g src)) l = 0.
+Proof. intro H. apply measure_zero_coeff. intros. unfold g_src. rewrite H. lia. Qed.
+
+(* (i) *)
+Lemma open_summary_sum_i d before :
+  (forall k, g (o_earn_prev o) k = 0) -> (forall k, g (o_opening o) k = 0) -> (forall k, g (o_conv_prev o) k = 0) ->
+  (forall a k, is_income_statement a = true -> g a k = 0) ->
+  M (open_summary o d before) = M before.
+Proof.
+  intros H1 H2 H3 His. unfold open_summary. cbv zeta.
+  rewrite summary_sum, g_src_zero by exact H2.
+  rewrite !lsum_app, conv_entries_sum_0 by exact H3.
+  rewrite transfer_entries_sum_i by assumption. lia.
+Qed.
+
+(* (ii) *)
+Lemma off_is_special a : (forall a k, is_income_statement a = false -> g a k = 0) ->
+  is_income_statement a = false -> forall k, g a k = 0.
+Proof. intros H Ha k. apply H. exact Ha. Qed.
+
+Lemma open_summary_sum_ii d before :
+  (forall a k, is_income_statement a = false -> g a k = 0) ->
+  M (open_summary o d before) = 0.
+Proof.
+  intros Hn. unfold open_summary. cbv zeta.
+  rewrite summary_sum, g_src_zero by (apply off_is_special; assumption).
+  rewrite !lsum_app, conv_entries_sum_0 by (apply off_is_special; assumption).
+  rewrite transfer_entries_sum_ii by assumption.
+  rewrite lsum_app, conv_entries_sum_0 by (apply off_is_special; assumption). lia.
+Qed.
+
+Lemma part_close_sum_0 op cl l : (forall k, g (o_conv_cur o) k = 0) -> M (part_close op cl l) = 0.
+Proof.
+  intro H. unfold part_close. destruct cl as [[e|]|]; cbv zeta; try apply conv_entries_sum_0; auto.
+Qed.
+
+Lemma part_open_sum_i op l :
+  (forall k, g (o_earn_prev o) k = 0) -> (forall k, g (o_opening o) k = 0) -> (forall k, g (o_conv_prev o) k = 0) ->
+  (forall a k, is_income_statement a = true -> g a k = 0) ->
+  M (part_open op l) = M (take_lo op l).
+Proof. intros. destruct op; simpl; [apply open_summary_sum_i; assumption | reflexivity]. Qed.
+
+Lemma part_open_sum_ii op l :
+  (forall a k, is_income_statement a = false -> g a k = 0) -> M (part_open op l) = 0.
+Proof. intros. destruct op; simpl; [apply open_summary_sum_ii; assumption | reflexivity]. Qed.
+
+(* accounts other than Income/Expenses and the five option accounts: the total over
+   the prepared ledger is the total of the original entries before the CLOSE date *)
+Theorem prepared_sum_i op cl clr l : check_dates op cl = FromOk ->
+  (forall k, g (o_earn_prev o) k = 0) -> (forall k, g (o_opening o) k = 0) -> (forall k, g (o_conv_prev o) k = 0) ->
+  (forall k, g (o_earn_cur o) k = 0) -> (forall k, g (o_conv_cur o) k = 0) ->
+  (forall a k, is_income_statement a = true -> g a k = 0) ->
+  M (prepare_c o op cl clr l) = M (take_hi (close_date cl) l).
+Proof.
+  intros Hc H1 H2 H3 H4 H5 His. rewrite prepare_decomp by exact Hc.
+  rewrite !lsum_app, part_open_sum_i, part_close_sum_0 by assumption.
+  rewrite <- (lo_window_hi op cl l Hc), lsum_app.
+  assert (M (part_clear op cl clr l) = 0) as ->; [|lia].
+  unfold part_clear. destruct clr; cbv zeta; [|reflexivity].
+  apply transfer_entries_sum_i; assumption.
+Qed.
+
+(* Income/Expenses: only the activity inside the window; nothing with CLEAR *)
+Theorem prepared_sum_ii op cl clr l : check_dates op cl = FromOk ->
+  (forall a k, is_income_statement a = false -> g a k = 0) ->
+  M (prepare_c o op cl clr l) = if clr then 0 else M (part_window op cl l).
+Proof.
+  intros Hc Hn. rewrite prepare_decomp by exact Hc.
+  rewrite !lsum_app, part_open_sum_ii, part_close_sum_0 by (try apply off_is_special; assumption).
+  unfold part_clear. destruct clr; cbv zeta; [|rewrite lsum_nil; lia].
+  rewrite transfer_entries_sum_ii by assumption.
+  rewrite !lsum_app, part_open_sum_ii, part_close_sum_0 by (try apply off_is_special; assumption). lia.
+Qed.
+
+End M.
+
+(* (iii) value at cost of everything *)
+Lemma open_summary_cost c d before : cost_total all_accounts c (open_summary o d before) = 0.
+Proof. apply entries_from_balances_cost_zero. Qed.
+
+Theorem prepared_cost_all c op cl clr l : check_dates op cl = FromOk ->
+  cost_total all_accounts c (prepare_c o op cl clr l)
+  = match cl with Some _ => 0 | None => cost_total all_accounts c (part_window op cl l) end.
+Proof.
+  intros Hc. rewrite prepare_decomp by exact Hc. unfold cost_total. rewrite !lsum_app.
+  fold (cost_total all_accounts c (part_open op l)) (cost_total all_accounts c (part_window op cl l))
+       (cost_total all_accounts c (part_close op cl l)) (cost_total all_accounts c (part_clear op cl clr l)).
+  assert (cost_total all_accounts c (part_open op l) = 0) as Ho
+    by (destruct op; [apply open_summary_cost | reflexivity]).
+  assert (cost_total all_accounts c (part_clear op cl clr l) = 0) as ->.
+  { unfold part_clear. destruct clr; cbv zeta; [apply entries_from_balances_cost_zero | reflexivity]. }
+  rewrite Ho. unfold part_close. destruct cl as [[e|]|]; cbv zeta.
+  - rewrite conv_entries_cost. unfold cost_total at 2. rewrite lsum_app.
+    fold (cost_total all_accounts c (part_open op l)). rewrite Ho. unfold cost_total. lia.
+  - rewrite conv_entries_cost. unfold cost_total at 2. rewrite lsum_app.
+    fold (cost_total all_accounts c (part_open op l)). rewrite Ho. unfold cost_total. lia.
+  - unfold cost_total. rewrite lsum_nil. lia.
+Qed.
+
+(* every transaction of the prepared ledger balances *)
+Lemma conv_entries_balanced before acct ccur ldate : Forall balanced (conv_entries before acct ccur ldate).
+Proof.
+  unfold conv_entries. cbv zeta. destruct (inv_is_empty _); repeat constructor.
+  intro c. unfold conversion_entry; cbn [t_posts]. generalize (inv_reduce_cost (entries_balance before)).
+  induction i as [|kn r IH]; [reflexivity|].
+  cbn [map]. rewrite wsum_cons, IH. unfold weight; cbn [p_cost p_price p_units fst snd]. destruct (ccur =? c); lia.
+Qed.
+
+Lemma Forall_take {P : txn -> Prop} d l : Forall P l -> Forall P (take_before d l).
+Proof. induction 1; simpl; [constructor|]. destruct (_ <? d); constructor; auto. Qed.
+Lemma Forall_drop {P : txn -> Prop} d l : Forall P l -> Forall P (drop_before d l).
+Proof. induction 1; simpl; [constructor|]. destruct (_ <? d); [assumption | constructor; auto]. Qed.
+Lemma Forall_window {P : txn -> Prop} op cl l : Forall P l -> Forall P (part_window op cl l).
+Proof.
+  intro H. unfold part_window, take_hi, drop_lo.
+  destruct (close_date cl), op; auto using Forall_take, Forall_drop.
+Qed.
+
+Theorem prepared_balanced op cl clr l : check_dates op cl = FromOk ->
+  Forall balanced l -> Forall balanced (prepare_c o op cl clr l).
+Proof.
+  intros Hc Hl. rewrite prepare_decomp by exact Hc. repeat (apply Forall_app; split).
+  - destruct op; simpl; [apply entries_from_balances_balanced | constructor].
+  - apply Forall_window. exact Hl.
+  - unfold part_close. destruct cl as [[e|]|]; cbv zeta; try apply conv_entries_balanced. constructor.
+  - unfold part_clear. destruct clr; cbv zeta; [apply entries_from_balances_balanced | constructor].
+Qed.
+
+(* shape: generated entries before and after the window *)
+Lemma shape_synth flag d l : (flag = FLAG_SUMMARIZE \/ flag = FLAG_TRANSFER \/ flag = FLAG_CONVERSIONS) ->
+  Forall (fun t => t_flag t = flag /\ t_date t = d) l -> Forall (fun t => synthetic t = true) l.
+Proof.
+  intros Hf. apply Forall_impl. intros t [H _]. unfold synthetic. rewrite H.
+  destruct Hf as [->| [->| ->]]; reflexivity.
+Qed.
+
+Theorem prepared_shape op cl clr l : check_dates op cl = FromOk ->
+  exists pre post, prepare_c o op cl clr l = pre ++ part_window op cl l ++ post /\
+                   Forall (fun t => synthetic t = true) pre /\ Forall (fun t => synthetic t = true) post.
+Proof.
+  intro Hc. exists (part_open op l), (part_close op cl l ++ part_clear op cl clr l).
+  split; [apply prepare_decomp; exact Hc|]. split; [|apply Forall_app; split].
+  - destruct op; simpl; [|constructor]. eapply shape_synth; [|apply open_summary_shape]. auto.
+  - unfold part_close. destruct cl as [[e|]|]; cbv zeta; try constructor;
+      (eapply shape_synth; [|apply conv_entries_shape]; auto).
+  - unfold part_clear. destruct clr; cbv zeta; [|constructor].
+    eapply shape_synth; [|apply transfer_entries_shape]; auto.
+Qed.
+
+End Prepared.
+
+(* on a ledger sorted by date the window is a filter *)
+Lemma window_filter op cl l : sorted_dates l ->
+  part_window op cl l = filter (in_window op (close_date cl)) l.
+Proof.
+  intro Hs. unfold part_window, take_hi, drop_lo, in_window.
+  destruct op as [d|], (close_date cl) as [e|].
+  - rewrite drop_before_filter by exact Hs. rewrite take_before_filter by (apply sorted_dates_filter; exact Hs).
+    apply filter_filter.
+  - rewrite drop_before_filter by exact Hs. apply filter_ext'. intro. rewrite andb_true_r. reflexivity.
+  - rewrite take_before_filter by exact Hs. reflexivity.
+  - symmetry. apply filter_all. apply Forall_forall. reflexivity.
+Qed.
+Lemma take_hi_filter hi l : sorted_dates l ->
+  take_hi hi l = filter (in_window None hi) l.
+Proof.
+  intro Hs. unfold take_hi, in_window. destruct hi as [e|].
+  - rewrite take_before_filter by exact Hs. reflexivity.
+  - symmetry. apply filter_all. apply Forall_forall. reflexivity.
+Qed.
+
+(* ------------------------------------------------------------------ *)
+(* final statements (used by Properties/C13.v) *)
+
+Lemma equity_not_is a : is_equity a = true -> is_income_statement a = false.
+Proof. unfold is_equity, is_income_statement. destruct (fst a); congruence. Qed.
+Lemma AL_not_is a : is_balance_sheet_AL a = true -> is_income_statement a = false.
+Proof. unfold is_balance_sheet_AL, is_income_statement. destruct (fst a); congruence. Qed.
+Lemma AL_not_equity a : is_balance_sheet_AL a = true -> is_equity a = false.
+Proof. unfold is_balance_sheet_AL, is_equity. destruct (fst a); congruence. Qed.
+
+Lemma not_option_account o a : is_option_account o a = false ->
+  a <> o_earn_prev o /\ a <> o_opening o /\ a <> o_conv_prev o /\ a <> o_earn_cur o /\ a <> o_conv_cur o.
+Proof.
+  unfold is_option_account. rewrite !orb_false_iff. intros [[[[H1 H2] H3] H4] H5].
+  repeat split; intro E; subst a; rewrite acct_eqb_refl in *; discriminate.
+Qed.
+
+Lemma g_units_other a k a' k' : a' <> a -> g_units a k a' k' = 0.
+Proof.
+  intro H. unfold g_units. destruct (acct_eqb a' a) eqn:E; [apply acct_eqb_eq in E; contradiction | reflexivity].
+Qed.
+Lemma g_cost_other sel c a' k' : sel a' = false -> g_cost sel c a' k' = 0.
+Proof. intro H. unfold g_cost. rewrite H. reflexivity. Qed.
+
+Section Final.
+Variable o : opts.
+Hypothesis Ho : opts_equity o.
+
+Let H1 : is_income_statement (o_earn_prev o) = false. Proof. apply equity_not_is, Ho. Qed.
+Let H2 : is_income_statement (o_opening o) = false. Proof. apply equity_not_is, Ho. Qed.
+Let H3 : is_income_statement (o_conv_prev o) = false. Proof. apply equity_not_is, Ho. Qed.
+Let H4 : is_income_statement (o_earn_cur o) = false. Proof. apply equity_not_is, Ho. Qed.
+Let H5 : is_income_statement (o_conv_cur o) = false. Proof. apply equity_not_is, Ho. Qed.
+
+(* any account that is neither Income/Expenses nor one of the five option accounts *)
+Theorem final_other_units op cl clr l a k : sorted_dates l -> check_dates op cl = FromOk ->
+  is_income_statement a = false -> is_option_account o a = false ->
+  units_total a k (prepare_c o op cl clr l) = units_total a k (filter (in_window None (close_date cl)) l).
+Proof.
+  intros Hs Hc Ha Hoa. unfold units_total. rewrite <- take_hi_filter by exact Hs.
+  destruct (not_option_account o a Hoa) as (N1 & N2 & N3 & N4 & N5).
+  apply prepared_sum_i; try assumption; intros; apply g_units_other; congruence.
+Qed.
+
+Lemma AL_not_option a : is_balance_sheet_AL a = true -> is_option_account o a = false.
+Proof.
+  intro Ha. unfold is_option_account. destruct Ho as (E1 & E2 & E3 & E4 & E5).
+  rewrite !orb_false_iff. repeat split;
+    (destruct (acct_eqb a _) eqn:E; [apply acct_eqb_eq in E; subst a; apply AL_not_equity in Ha; congruence | reflexivity]).
+Qed.
+
+Theorem final_AL_units op cl clr l a k : sorted_dates l -> check_dates op cl = FromOk ->
+  is_balance_sheet_AL a = true ->
+  units_total a k (prepare_c o op cl clr l) = units_total a k (filter (in_window None (close_date cl)) l).
+Proof. intros. apply final_other_units; auto using AL_not_is, AL_not_option. Qed.
+
+(* value at cost of any set of accounts disjoint from Income/Expenses and the option accounts *)
+Theorem final_other_cost sel c op cl clr l : sorted_dates l -> check_dates op cl = FromOk ->
+  (forall a, sel a = true -> is_income_statement a = false /\ is_option_account o a = false) ->
+  cost_total sel c (prepare_c o op cl clr l) = cost_total sel c (filter (in_window None (close_date cl)) l).
+Proof.
+  intros Hs Hc Hsel. unfold cost_total. rewrite <- take_hi_filter by exact Hs.
+  assert (forall a, is_option_account o a = true -> sel a = false) as Hopt.
+  { intros a Ha. destruct (sel a) eqn:E; [|reflexivity]. destruct (Hsel a E). congruence. }
+  apply prepared_sum_i; try assumption; intros; apply g_cost_other.
+  1-5: apply Hopt; unfold is_option_account; rewrite acct_eqb_refl, ?orb_true_r; reflexivity.
+  destruct (sel a) eqn:E; [|reflexivity]. destruct (Hsel a E). congruence.
+Qed.
+
+Theorem final_AL_cost c op cl clr l : sorted_dates l -> check_dates op cl = FromOk ->
+  cost_total is_balance_sheet_AL c (prepare_c o op cl clr l)
+  = cost_total is_balance_sheet_AL c (filter (in_window None (close_date cl)) l).
+Proof. intros. apply final_other_cost; auto using AL_not_is, AL_not_option. Qed.
+
+Theorem final_IS_units op cl clr l a k : sorted_dates l -> check_dates op cl = FromOk ->
+  is_income_statement a = true ->
+  units_total a k (prepare_c o op cl clr l)
+  = if clr then 0 else units_total a k (filter (in_window op (close_date cl)) l).
+Proof.
+  intros Hs Hc Ha. unfold units_total. rewrite <- window_filter by exact Hs.
+  apply prepared_sum_ii; try assumption. intros a' k' Ha'. apply g_units_other. congruence.
+Qed.
+
+Theorem final_IS_cost c op cl clr l : sorted_dates l -> check_dates op cl = FromOk ->
+  cost_total is_income_statement c (prepare_c o op cl clr l)
+  = if clr then 0 else cost_total is_income_statement c (filter (in_window op (close_date cl)) l).
+Proof.
+  intros Hs Hc. unfold cost_total. rewrite <- window_filter by exact Hs.
+  apply prepared_sum_ii; try assumption. intros a' k' Ha'. apply g_cost_other. exact Ha'.
+Qed.
+
+End Final.
+
+(* Assets+Liabilities, Income+Expenses and Equity partition the accounts *)
+Lemma lsum_plus f1 f2 l : lsum (fun p => f1 p + f2 p) l = lsum f1 l + lsum f2 l.
+Proof.
+  induction l as [|t r IH]; [reflexivity|]. rewrite !lsum_cons, IH.
+  assert (forall ps, psum (fun p => f1 p + f2 p) ps = psum f1 ps + psum f2 ps) as H
+    by (induction ps; simpl; lia).
+  rewrite H. lia.
+Qed.
+Lemma cost_total_partition c l :
+  cost_total all_accounts c l
+  = cost_total is_balance_sheet_AL c l + cost_total is_income_statement c l + cost_total is_equity c l.
+Proof.
+  unfold cost_total. rewrite <- !lsum_plus. apply lsum_ext. intro p.
+  unfold measure, g_cost, all_accounts, is_balance_sheet_AL, is_income_statement, is_equity.
+  destruct (fst (p_acct p)); simpl; destruct (_ =? c); lia.
+Qed.
+
+(* with CLOSE the value at cost of the whole prepared ledger is zero in every currency:
+   Equity carries minus (Assets + Liabilities as of the CLOSE date + Income/Expenses of the window) *)
+Theorem final_equity_difference o c op cs clr l : opts_equity o -> sorted_dates l ->
+  check_dates op (Some cs) = FromOk ->
+  cost_total is_equity c (prepare_c o op (Some cs) clr l)
+  = - (cost_total is_balance_sheet_AL c (filter (in_window None (close_date (Some cs))) l)
+       + (if clr then 0 else cost_total is_income_statement c (filter (in_window op (close_date (Some cs))) l))).
+Proof.
+  intros Ho Hs Hc.
+  pose proof (prepared_cost_all o c op (Some cs) clr l Hc) as Hall. cbv iota in Hall.
+  rewrite cost_total_partition in Hall.
+  rewrite (final_AL_cost o Ho c op (Some cs) clr l Hs Hc) in Hall.
+  rewrite (final_IS_cost o Ho c op (Some cs) clr l Hs Hc) in Hall. lia.
+Qed.
+
+Theorem final_no_original_outside o op cl clr l t : sorted_dates l -> check_dates op cl = FromOk ->
+  In t (prepare_c o op cl clr l) -> synthetic t = false ->
+  In t l /\ in_window op (close_date cl) t = true.
+Proof.
+  intros Hs Hc Hin Hsyn. destruct (prepared_shape o op cl clr l Hc) as (pre & post & E & Hpre & Hpost).
+  rewrite E in Hin. rewrite (window_filter op cl l Hs) in Hin.
+  apply in_app_or in Hin. destruct Hin as [Hin|Hin].
+  - rewrite Forall_forall in Hpre. rewrite (Hpre t Hin) in Hsyn. discriminate.
+  - apply in_app_or in Hin. destruct Hin as [Hin|Hin].
+    + apply filter_In in Hin. exact Hin.
+    + rewrite Forall_forall in Hpost. rewrite (Hpost t Hin) in Hsyn. discriminate.
+Qed.
+
+Theorem final_inside_unchanged o op cl clr l : sorted_dates l -> check_dates op cl = FromOk ->
+  Forall (fun t => synthetic t = false) l ->
+  filter (fun t => negb (synthetic t)) (prepare_c o op cl clr l) = filter (in_window op (close_date cl)) l.
+Proof.
+  intros Hs Hc Hl. destruct (prepared_shape o op cl clr l Hc) as (pre & post & E & Hpre & Hpost).
+  rewrite E, !filter_app, (window_filter op cl l Hs).
+  rewrite (filter_none _ pre), (filter_none _ post), app_nil_r; simpl.
+  - apply filter_all. apply Forall_forall. intros t Ht. apply filter_In in Ht. destruct Ht as [Ht _].
+    rewrite Forall_forall in Hl. rewrite (Hl t Ht). reflexivity.
+  - eapply Forall_impl; [|exact Hpost]. simpl. intros t ->. reflexivity.
+  - eapply Forall_impl; [|exact Hpre]. simpl. intros t ->. reflexivity.
+Qed.
